@@ -7,6 +7,7 @@ import (
 	"github.com/antlr4-go/antlr/v4"
 	gen "github.com/nyaruka/goflow/antlr/gen/excellent1"
 	"github.com/nyaruka/goflow/envs"
+	"github.com/nyaruka/goflow/excellent"
 )
 
 type legacyVisitor struct {
@@ -24,6 +25,53 @@ func newLegacyVisitor(env envs.Environment, options *MigrateOptions) *legacyVisi
 // Visit the top level parse tree
 func (v *legacyVisitor) Visit(tree antlr.ParseTree) any {
 	return tree.Accept(v)
+}
+
+// precedences of the operators of the new syntax, higher binds tighter
+const (
+	precConcatenation = iota + 1
+	precEquality
+	precComparison
+	precAddition
+	precMultiplication
+	precExponent
+	precNegation
+	precAtom
+)
+
+// gets the precedence of the outermost operator of a migrated expression
+func precedenceOf(expression string) int {
+	parsed, err := excellent.Parse(expression, nil)
+	if err != nil {
+		return precAtom
+	}
+
+	switch parsed.(type) {
+	case *excellent.Concatenation:
+		return precConcatenation
+	case *excellent.Equality, *excellent.InEquality:
+		return precEquality
+	case *excellent.LessThan, *excellent.LessThanOrEqual, *excellent.GreaterThan, *excellent.GreaterThanOrEqual:
+		return precComparison
+	case *excellent.Addition, *excellent.Subtraction:
+		return precAddition
+	case *excellent.Multiplication, *excellent.Division:
+		return precMultiplication
+	case *excellent.Exponent:
+		return precExponent
+	case *excellent.Negation:
+		return precNegation
+	}
+	return precAtom
+}
+
+// parenthesizes a migrated expression if, used as an operand of an operator which requires the given
+// precedence, it would otherwise be split up by the parser
+func asOperand(expression string, minPrecedence int) string {
+	if precedenceOf(expression) < minPrecedence {
+		return "(" + expression + ")"
+	}
+	return expression
 }
 
 // VisitParse handles our top level parser
@@ -76,21 +124,21 @@ func (v *legacyVisitor) VisitParentheses(ctx *gen.ParenthesesContext) any {
 
 // VisitNegation deals with negations such as -5
 func (v *legacyVisitor) VisitNegation(ctx *gen.NegationContext) any {
-	return fmt.Sprintf("-%s", v.Visit(ctx.Expression()))
+	return fmt.Sprintf("-%s", asOperand(v.Visit(ctx.Expression()).(string), precNegation))
 }
 
 // VisitExponentExpression deals with exponenets such as 5^5
 func (v *legacyVisitor) VisitExponentExpression(ctx *gen.ExponentExpressionContext) any {
-	arg1 := v.Visit(ctx.Expression(0))
-	arg2 := v.Visit(ctx.Expression(1))
+	arg1 := asOperand(v.Visit(ctx.Expression(0)).(string), precExponent)
+	arg2 := asOperand(v.Visit(ctx.Expression(1)).(string), precExponent+1)
 
 	return fmt.Sprintf("%s ^ %s", arg1, arg2)
 }
 
 // VisitConcatenation deals with string concatenations like "foo" & "bar"
 func (v *legacyVisitor) VisitConcatenation(ctx *gen.ConcatenationContext) any {
-	arg1 := v.Visit(ctx.Expression(0))
-	arg2 := v.Visit(ctx.Expression(1))
+	arg1 := asOperand(v.Visit(ctx.Expression(0)).(string), precConcatenation)
+	arg2 := asOperand(v.Visit(ctx.Expression(1)).(string), precConcatenation+1)
 
 	return fmt.Sprintf("%s & %s", arg1, arg2)
 }
@@ -109,17 +157,21 @@ func (v *legacyVisitor) VisitAdditionOrSubtractionExpression(ctx *gen.AdditionOr
 	arg1Type := inferType(arg1)
 	arg2Type := inferType(arg2)
 
+	// where a subtraction becomes the addition of a negated operand, that operand follows a negation sign
+	negated := asOperand(arg2, precNegation)
+
 	//fmt.Printf("Migrating add/sub with types: %s => %s, %s =>%s\n", arg1, arg1Type, arg2, arg2Type)
 
 	if arg1Type == "number" && arg2Type == "number" {
 		// we are adding two numbers
-		return fmt.Sprintf("%s %s %s", arg1, op, arg2)
+		return fmt.Sprintf("%s %s %s", asOperand(arg1, precAddition), op, asOperand(arg2, precAddition+1))
 
 	} else if arg1Type == "datetime" && arg2Type == "number" {
 		// we are adding a datetime and a number (of days)
 		template := `datetime_add(%s, %s, "D")`
 		if op == "-" {
 			template = `datetime_add(%s, -%s, "D")`
+			arg2 = negated
 		}
 
 		return fmt.Sprintf(template, arg1, arg2)
@@ -129,6 +181,7 @@ func (v *legacyVisitor) VisitAdditionOrSubtractionExpression(ctx *gen.AdditionOr
 		template := `datetime_add(%s, %s, "D")`
 		if op == "-" {
 			template = `datetime_add(%s, -%s, "D")`
+			arg2 = negated
 		}
 
 		if !v.options.RawDates {
@@ -158,13 +211,13 @@ func (v *legacyVisitor) VisitAdditionOrSubtractionExpression(ctx *gen.AdditionOr
 	if op == "+" {
 		return fmt.Sprintf("legacy_add(%s, %s)", arg1, arg2)
 	}
-	return fmt.Sprintf("legacy_add(%s, -%s)", arg1, arg2)
+	return fmt.Sprintf("legacy_add(%s, -%s)", arg1, negated)
 }
 
 // VisitEquality deals with equality or inequality tests 5 = 5 and 5 != 5
 func (v *legacyVisitor) VisitEqualityExpression(ctx *gen.EqualityExpressionContext) any {
-	arg1 := v.Visit(ctx.Expression(0))
-	arg2 := v.Visit(ctx.Expression(1))
+	arg1 := asOperand(v.Visit(ctx.Expression(0)).(string), precEquality)
+	arg2 := asOperand(v.Visit(ctx.Expression(1)).(string), precEquality+1)
 
 	if ctx.EQ() != nil {
 		return fmt.Sprintf("%s = %s", arg1, arg2)
@@ -175,8 +228,8 @@ func (v *legacyVisitor) VisitEqualityExpression(ctx *gen.EqualityExpressionConte
 
 // VisitMultiplicationOrDivision deals with division and multiplication such as 5*5 or 5/2
 func (v *legacyVisitor) VisitMultiplicationOrDivisionExpression(ctx *gen.MultiplicationOrDivisionExpressionContext) any {
-	arg1 := v.Visit(ctx.Expression(0))
-	arg2 := v.Visit(ctx.Expression(1))
+	arg1 := asOperand(v.Visit(ctx.Expression(0)).(string), precMultiplication)
+	arg2 := asOperand(v.Visit(ctx.Expression(1)).(string), precMultiplication+1)
 
 	if ctx.TIMES() != nil {
 		return fmt.Sprintf("%s * %s", arg1, arg2)
@@ -187,8 +240,8 @@ func (v *legacyVisitor) VisitMultiplicationOrDivisionExpression(ctx *gen.Multipl
 
 // VisitComparison deals with visiting a comparison between two values, such as 5<3 or 3>5
 func (v *legacyVisitor) VisitComparisonExpression(ctx *gen.ComparisonExpressionContext) any {
-	arg1 := v.Visit(ctx.Expression(0))
-	arg2 := v.Visit(ctx.Expression(1))
+	arg1 := asOperand(v.Visit(ctx.Expression(0)).(string), precComparison)
+	arg2 := asOperand(v.Visit(ctx.Expression(1)).(string), precComparison+1)
 
 	return fmt.Sprintf("%s %s %s", arg1, ctx.GetOp().GetText(), arg2)
 }
